@@ -24,4 +24,50 @@ class C19F(worldprop.WorldProp):
 
 
 P = C19F("C19", "p_c19", [("register", 250, 5000), ("general", 100, 1000), ("faults-register", 0, 0)], {12, 13, 17, 151, 158})
-run, replay = P.run, P.replay
+def replay(out, path, prelude):
+    import json
+    import os
+    import vlib
+    import rulescheck
+    obj = json.load(open(path))
+    case = obj.get("case") or {}
+    if case.get("kind") != "rules-case":
+        return P.replay(out, path, prelude)
+    binp = prelude(out)
+    if binp is None:
+        return 2
+    pin = os.path.join(vlib.CACHE, "rules_replay_in.jsonl")
+    pout = os.path.join(vlib.CACHE, "rules_replay_out.jsonl")
+    vlib.write_jsonl(pin, [dict(case["case"], id=1)])
+    rc, log = vlib.run_harness(["rules", "-replay", pin, "-out", pout], binp=binp)
+    got = vlib.read_jsonl(pout) if rc == 0 else []
+    for p in (pin, pout):
+        if os.path.exists(p):
+            os.remove(p)
+    if not got:
+        print(log)
+        return 2
+    res, ok, logs = vlib.run_case_files([("C19_rules_replay", rulescheck.to_coq(got))])
+    vlib.clean_cases("C19_rules_replay")
+    print(json.dumps(got[0], indent=1)[:3000])
+    print("result (case, code):", res, "unknown messages:", got[0].get("unknown"))
+    if res or got[0].get("unknown") or not ok:
+        print("VIOLATION property=C19 replay=%s" % path)
+        return 1
+    return 0
+
+
+def run(out, prelude):
+    """the registration histories, then the rule evaluator on random rule sets (tools/rulescheck.py)"""
+    import vlib
+    import rulescheck
+    hs = P.run(out, prelude)
+    if hs is None:
+        return
+    ok, _, binp = vlib.build_harness()
+    if ok:
+        n, nbad = rulescheck.run(out, binp, vlib.tier() == "thorough")
+        out.cov["rule"] = out.cov.get("rule", "") + ("; plus %d random (rule set, field values) cases through defaults.Rules.Errors and "
+                                                     "HTTPFormValidator.Validate compared with Model/Rules.v (every limit, error kind and "
+                                                     "order, blank regexp, both shipped matchers, non-ASCII values with Go's rune classes, "
+                                                     "confirm pairs)" % n)
